@@ -48,7 +48,6 @@ func VerifConsts() map[string]int {
 	}
 }
 
-func VerifDecodeFormat(raw uint) (Version, Level, Mask, bool) { return decodeFormat(raw) }
 func VerifCalcVersion(level Level, segs []Segment) Version    { return calcVersion(level, segs) }
 func VerifSegLength(s *Segment, v Version) (int, bool)        { return s.length(v) }
 func VerifNewQR(level Level, data []byte) (*QRCode, error)    { return newQR(level, data) }
